@@ -123,6 +123,13 @@ def run(prop: str, tier: str) -> int:
                                           tmpdir=tmpdir, trace_id=tid, typed=True))
         validate(rep, traces, "forced: TypedTree, 1 writer (nested) x 1 reader, every operation")
         traces = []
+        for oi, op in enumerate(L.OPS):      # a subclass whose `with tree:` takes a lock of its own
+            for k, h in enumerate(h1[oi::6] if quick else h1[oi::2]):
+                tid += 1
+                nop = nested_ops[(k + oi) % len(nested_ops)]
+                traces.append(L.run_trace(op, schedule=h, nested=True, nested_op=nop, tmpdir=tmpdir, trace_id=tid, shared=True))
+        validate(rep, traces, "forced: subclass with its own lock behind `with tree:`, every operation")
+        traces = []
         for k, h in enumerate(h2):
             tid += 1
             rops = {"r1": L.OPS[k % len(L.OPS)], "r2": L.OPS[(k // 3 + 4) % len(L.OPS)]}
